@@ -33,7 +33,7 @@ ASSUMPTIONS = [
 ]
 
 T.ALPHABETS['c05x'] = {'concepts': ['x'], 'roles': [':op2', ':op10~e.1', ':r-of', ':op1-of~e.2'], 'atoms': ['k', '"s"~2'], 'refs': 'all+aligned0'}
-T.ALPHABETS['c05'] = {'concepts': [T.ABSENT, 'x'], 'roles': [':op2', ':op10~e.1', ':r-of', ':op1-of~e.2'], 'atoms': ['k', '"s"~2'], 'refs': 'all+aligned0'}
+T.ALPHABETS['c05'] = {'concepts': [T.ABSENT, 'x'], 'roles': [':op2', ':op10~1', ':r-of', ':op1-of~x.2'], 'atoms': ['k', '"s"~2'], 'refs': 'all+aligned0'}
 T.ALPHABETS['c05amr'] = {'concepts': ['x'], 'roles': [':ARG1', ':ARG0-of~e.2', ':consist-of', ':mod-of'], 'atoms': ['k'], 'refs': 'all'}
 T.ALPHABETS['c05mini'] = {'concepts': ['x'], 'roles': [':ARG1', ':consist-of-of', ':op10', ':op2~1'], 'atoms': ['k'], 'refs': 'all'}
 T.ALPHABETS['c05n'] = {'concepts': [T.ABSENT, 'x'], 'roles': [':op2', ':op10', ':r-of'], 'atoms': ['k'], 'refs': 'all'}
@@ -46,7 +46,7 @@ def shards(tier, seed):
     out = []
     q = tier == 'quick'
     d = 2 if q else 3
-    out += T.shard_list(3, 2, 3, 'c05', pin=4, extra={'sub': 'bfs', 'q': int(q), 'depth': d, 'model': 'DEFAULT', 'bounds': f'op histories of depth {d} from TREE(3,2,3); depth {d - 1} from TREE(3,3,3) (DEFAULT, AMR roles; quick: VERIF_SEED-chosen quarter) and TREE(3,2,3) MINI roles; depth 1 from TREE(4,4,3) narrow (quick: one eighth)'})
+    out += T.shard_list(3, 2, 3, 'c05', pin=4, extra={'sub': 'bfs', 'q': int(q), 'names2': 1, 'depth': d, 'model': 'DEFAULT', 'bounds': f'op histories of depth {d} from TREE(3,2,3); depth {d - 1} from TREE(3,3,3) (DEFAULT, AMR roles; quick: VERIF_SEED-chosen quarter) and TREE(3,2,3) MINI roles; depth 1 from TREE(4,4,3) narrow (quick: one eighth)'})
     mid = T.shard_list(3, 3, 3, 'c05x', pin=3, extra={'sub': 'bfs', 'q': int(q), 'depth': d - 1, 'model': 'DEFAULT', 'bounds': ''})
     out += mid[seed % 4::4] if q else mid
     amr = T.shard_list(3, 3, 3, 'c05amr', pin=3, extra={'sub': 'bfs', 'q': int(q), 'depth': d - 1, 'model': 'AMR', 'bounds': ''})
@@ -60,6 +60,8 @@ def shards(tier, seed):
 def cases(shard):
     for t in T.shard_trees(shard):
         yield {'t': t, 'depth': shard['depth'], 'model': shard['model'], 'q': shard.get('q', 0)}
+        if shard.get('names2'):
+            yield {'t': t, 'depth': 1, 'model': shard['model'], 'q': shard.get('q', 0), 'names2': 1}
 
 
 # ---------------------------------------------------------------- reference sort keys
@@ -179,6 +181,11 @@ def check(case, ctx):
         ctx.cats['not_well_formed'] += 1
         return
     g0 = layout.interpret(Tree(t), pm)
+    if case.get('names2'):
+        # decoded from text with two-character variable names: every mention is a distinct str object
+        from pmc.props.c10 import ref_apply
+        t = ref_apply(t, {'a': 'a1', 'b': 'b2', 'c': 'c3', 'd': 'd4'})
+        g0 = penman.decode(penman.format(Tree(t)), model=pm)
     variables = sorted(g0.variables())
     base_triples = list(g0.triples)
     wants = {v: RI.content(base_triples, v, rm) for v in variables}
